@@ -5,7 +5,7 @@
 //	x evf FLAGS HEX*                                ArrayRules{ValidationMode}.ElementValidationFunc() fed the same way
 //	x cb MIN MAX COUNT                              ArrayRules.CheckBounds
 //	x sub A,B,.. C,D,..                             TypePrefixes.Subset
-//	x sort bs|a32|a36|a40|ser HEX*                  sort.Sort over the LexicalOrdered* / SortedSerializables helpers
+//	x sort bs|a32|a36|a40|ser HEX*                  sort.Sort over the LexicalOrdered* / SortedSerializables helpers (their Len / Less / Swap)
 //	x time NANOS                                    TimeToUint64
 //
 // Go-side oracles (independent of Lean): `rules` - a validator accepts the whole sequence iff the rule it is documented
